@@ -182,6 +182,12 @@ def answerParse (cmd : String) (args : List String) : Option String :=
   | "book", _ => BookProto.answerBook args
   | "cbook", _ => CircProto.answerCBook args
   | "cycles", _ => CircProto.answerCycles args
+  | "fit", R :: C :: r :: c :: vals => do
+      -- `fit R C r c v…` : an r × c value stored into R × C cells, row-major
+      let R' ← R.toNat?; let C' ← C.toNat?; let r' ← r.toNat?; let c' ← c.toNat?
+      let (vs, _) ← BookProto.takeVals (r' * c') vals
+      let v := BookProto.chunk c' r' vs
+      pure (" ".intercalate ((fit (.err .na) R' C' v).flatten.map BookProto.showVal))
   | "parse", [t] =>
       pure (match parseString (decodeStr t) with
         | .ok a => "ok " ++ encodeStr (render a).toList
